@@ -46,7 +46,7 @@ def grid_records(lines):
     for r in lines:
         if r.get("k") != "cell":
             continue
-        v = [r["l"], r["m"]] + list(r["c"]) + [r["p"], r["cc"], len(r["il"])] + list(r["il"]) + [len(r["nb"])] + list(r["nb"])
+        v = [r["l"], r["m"]] + list(r["c"]) + [r["p"], r["cc"], len(r["il"])] + sorted(r["il"]) + [len(r["nb"])] + sorted(r["nb"])
         out.append(" ".join(map(str, v)))
     return "\n".join(out) + "\n"
 
